@@ -224,6 +224,10 @@ func main() {
 		runMutate(repo, verif, pos)
 	case "mutasm":
 		runMutAsm(repo, verif, pos)
+	case "rolesgen":
+		c := NewCtx("adhoc", tier, repo, verif)
+		noRoles = true
+		fmt.Print(rolesGenSource(c.G()))
 	case "asmlive":
 		c := NewCtx("adhoc", tier, repo, verif)
 		a := c.Asm()
